@@ -583,3 +583,92 @@ def _geometry_chain(rng, nx, ny, sym):
              span=1.0, yshear_cp=np.zeros(2), dihedral=0.0, zshear_cp=np.zeros(2), twist_cp=np.zeros(2))
     return dict(factory=lambda: GeometryMesh(surface=s), ints=[nx, ny, int(sym)], consts=[pos], inputs=vals,
                 post_consts=mesh.ravel(), outputs=["mesh"], branch="defaults" if default else "random DVs", jtol=1e-6)
+
+
+# ---------------------------------------------------------------------------------------
+# vortex-lattice core
+# ---------------------------------------------------------------------------------------
+from .pipelines import left_flag
+
+
+def _vlm_surfs(rng, nx, ny, sym, ns=None, ground=False):
+    ns = ns or int(rng.integers(1, 3))
+    out = []
+    for k in range(ns):
+        s_sym = sym if k == 0 else bool(rng.integers(2))
+        right = bool(s_sym and rng.uniform() < 0.35)
+        s = gen.base_surface(rng, nx + (k % 2), ny + (k // 2), s_sym, name="surf%d" % k, right=right)
+        s["mesh"][:, :, 0] += 4.0 * k
+        s["mesh"][:, :, 2] += 0.7 * k
+        if ground and s_sym:
+            s["groundplane"] = True
+        out.append(s)
+    return out
+
+
+def _vlm_ints(ss):
+    ints = [len(ss)]
+    for s in ss:
+        m = s["mesh"]
+        ints += [m.shape[0], m.shape[1], int(s["symmetry"]), int(left_flag(m)), int(bool(s.get("groundplane", False)))]
+    return ints
+
+
+@spec("CollocationPoints")
+def _collocation_points(rng, nx, ny, sym):
+    from openaerostruct.aerodynamics.collocation_points import CollocationPoints
+    ss = _vlm_surfs(rng, nx, ny, sym)
+    inp = OrderedDict((s["name"] + "_def_mesh", s["mesh"]) for s in ss)
+    return dict(factory=lambda: CollocationPoints(surfaces=ss), ints=_vlm_ints(ss), consts=[], inputs=inp,
+                outputs=["coll_pts", "force_pts", "bound_vecs"])
+
+
+@spec("VortexMesh")
+def _vortex_mesh(rng, nx, ny, sym):
+    from openaerostruct.aerodynamics.vortex_mesh import VortexMesh
+    ground = bool(sym and rng.uniform() < 0.5)
+    ss = _vlm_surfs(rng, nx, ny, sym, ns=1, ground=ground)
+    s = ss[0]
+    inp = OrderedDict()
+    if ground:
+        inp["alpha"] = np.array([np.radians(rng.uniform(-10, 10))]); inp["height_agl"] = np.array([rng.uniform(2, 40)])
+    inp[s["name"] + "_def_mesh"] = s["mesh"] + rng.normal(size=s["mesh"].shape) * 0.01 * np.array([1, 0, 1])
+    consts = [] if ground else [0.0, 0.0]
+    return dict(factory=lambda: VortexMesh(surfaces=ss), ints=_vlm_ints(ss), consts=consts, inputs=inp,
+                outputs=[s["name"] + "_vortex_mesh"], branch="ground" if ground else "free", jtol=1e-6)
+
+
+@spec("EvalVelMtx", jac=False)
+def _eval_vel_mtx(rng, nx, ny, sym):
+    from openaerostruct.aerodynamics.eval_mtx import EvalVelMtx
+    ground = bool(sym and rng.uniform() < 0.4)
+    ss = _vlm_surfs(rng, nx, ny, sym, ns=1, ground=ground)
+    s = ss[0]; m = s["mesh"]
+    npts = int(rng.integers(2, 5))
+    rows = (2 if ground else 1) * m.shape[0]; cols = 2 * m.shape[1] - 1 if sym else m.shape[1]
+    # vectors = eval points - vortex mesh: build them from a real vortex mesh so that the geometry is realistic
+    from openaerostruct.aerodynamics.vortex_mesh import VortexMesh
+    from .core import comp_problem
+    vin = {s["name"] + "_def_mesh": m}
+    if ground:
+        vin.update(alpha=np.radians(3.0), height_agl=float(rng.uniform(3, 30)))
+    vm = np.array(comp_problem(VortexMesh(surfaces=ss), vin).get_val(s["name"] + "_vortex_mesh"))
+    pts = np.array([0.5 * (m[0, 0] + m[-1, -1])]) + rng.normal(size=(npts, 3)) * np.array([2.0, 3.0, 0.5])
+    vec = pts[:, None, None, :] - vm[None]
+    alpha = float(rng.uniform(-10, 10))
+    name = "%s_%s_vectors" % (s["name"], "coll_pts")
+    return dict(factory=lambda: EvalVelMtx(surfaces=ss, num_eval_points=npts, eval_name="coll_pts"),
+                ints=_vlm_ints(ss) + [npts], consts=[], inputs=OrderedDict([("alpha", np.array([alpha])), (name, vec)]),
+                outputs=["%s_coll_pts_vel_mtx" % s["name"]], branch="ground" if ground else "free", vtol=1e-8)
+
+
+@spec("Horseshoe", sym_opts=(False,))
+def _horseshoe(rng, nx, ny, sym):
+    from openaerostruct.aerodynamics.horseshoe_circulations import HorseshoeCirculations
+    ss = _vlm_surfs(rng, nx, ny, sym, ns=int(rng.integers(1, 4)))
+    N = sum((s["mesh"].shape[0] - 1) * (s["mesh"].shape[1] - 1) for s in ss)
+    ints = [len(ss)]
+    for s in ss:
+        ints += [s["mesh"].shape[0], s["mesh"].shape[1]]
+    return dict(factory=lambda: HorseshoeCirculations(surfaces=ss), ints=ints, consts=[],
+                inputs=OrderedDict(circulations=rng.normal(size=N)), outputs=["horseshoe_circulations"])
